@@ -65,8 +65,8 @@ def gen_cases(tier, seed):
                 if N + M <= 4:
                     combos.append((S, N, M))
     rng.shuffle(combos)
-    if tier == "quick":
-        combos = combos[:8]
+    # (every combination runs in both tiers: the interesting ones -- first part not a multiple of the save interval, second part a
+    #  multiple of it, and the reverse -- are few and easily missed by sampling)
     for i, (S, N, M) in enumerate(combos):
         for P in ([[1, 2, 4][i % 3]] if tier == "quick" else [1, 2, 4]):
             cases.append({"kind": "driver", "S": S, "N": N, "M": M, "P": P, "dt": rng.choice([1, 2]), "seed": rng.randrange(1 << 30), "cost": 3000})
@@ -110,6 +110,8 @@ def _roundtrip(case, tmp):
     cfile = os.path.join(tmp, "c.json")
     rp_given = 2.0 + (case["seed"] % 7) * 0.25 if case["seed"] % 2 else None        # midpoint would be 3.2
     extra = {"rp": rp_given} if rp_given else {}
+    if case["seed"] % 5 in (1, 2):
+        extra["CN0"] = round(0.9 + (case["seed"] % 97) * 1e-3, 11)          # normalisation given explicitly (not the value the library would compute)
     if case["seed"] % 3 == 0:
         extra.update({"vMin": -5.0 + (case["seed"] % 5) * 0.25, "vMax": 4.5 + (case["seed"] % 4) * 0.5})       # asymmetric velocity domain
     dr.write_constants(cfile, npts, dt=2, extra=extra or None,
@@ -121,6 +123,7 @@ def _roundtrip(case, tmp):
     F = rs.standard_normal(npts)
     PHI = rs.standard_normal(npts[:3]) + 1j * rs.standard_normal(npts[:3])
     t_write = int(rs.choice([0, 6, 40, 1234]))
+    t_named = [int(x) for x in (rs.choice([2, 8, 50]), rs.choice([2000, 3000, 100000]))]      # latest 'f0' is later than the latest 'grid'
     del simh5.LOG[:]
 
     def writer(rank):
@@ -133,6 +136,11 @@ def _roundtrip(case, tmp):
         sim.phi.setLayout('v_parallel_2d')
         sim.scatter(sim.phi, PHI)
         sim.phi.writeH5Dataset(folder, t_write, "phi")
+        # a second family of 4-D snapshots under another name, at other times and with other contents
+        for k_, tt in enumerate(t_named):
+            simrun.Sim.scatter(grid, F + 10.0 * (k_ + 1))
+            grid.writeH5Dataset(folder, tt, "f0")
+        simrun.Sim.scatter(grid, F)
         return True
 
     w = MPI.run_world(P1, writer, schedule="random", seed=case["seed"], timeout=600)
@@ -181,6 +189,19 @@ def _roundtrip(case, tmp):
         out["setup_layout"] = simrun.Sim.block(g3)
         out["lay3"] = g3.currentLayout
         out["rp"] = (c.rp, c2.rp, c3.rp)
+        out["consts"] = [_public(c), _public(c2), _public(c3)]
+        # named families: latest and explicit time, 4-D real and the complex 3-D potential
+        grid.getAllData()[:] = -1.0
+        grid.loadFromFile(folder, nameConvention="f0")
+        out["named_latest"] = simrun.Sim.block(grid)
+        grid.getAllData()[:] = -1.0
+        grid.loadFromFile(folder, t_named[0], "f0")
+        out["named_first"] = simrun.Sim.block(grid)
+        sim = simrun.Sim(comm, c, grid.getLayout(layout).nprocs[:2], layout='v_parallel', save=False)
+        sim.phi.setLayout('v_parallel_2d')
+        sim.phi.getAllData()[:] = -1.0
+        sim.phi.loadFromFile(folder, nameConvention="phi")
+        out["phi_latest"] = simrun.Sim.block(sim.phi)
         out["eta"] = [[np.array(x, dtype=float) for x in g.eta_grid] for g in (grid, g2, g3)]
         out["knots"] = [[np.array(g.getSpline(i).knots, dtype=float) for i in range(4)] for g in (grid, g2, g3)]
         return out
@@ -200,6 +221,26 @@ def _roundtrip(case, tmp):
         if not (cover == 1).all() or not lo.bits_equal(G, F):
             return result(VIOL, cls=[base], events=ev, key="C18:roundtrip/%s" % name, what="%s on %d ranks after writing on %d ranks (layout %s): global field not bit-identical (max diff %.3g)"
                           % (name, P2, P1, layout, float(np.abs(G - F).max())), witness=wit)
+    for name, want_ in (("named_latest", F + 20.0), ("named_first", F + 10.0)):
+        G, cover = simrun.assemble([r[name] for r in w2.results], tuple(npts))
+        ev["roundtrip_fields_compared"] += 1
+        if not (cover == 1).all() or not lo.bits_equal(G, want_):
+            return result(VIOL, cls=[base], events=ev, key="C18:roundtrip/named-family", what="Grid.loadFromFile(%s) of the snapshot family 'f0' (times %r, next to 'grid' checkpoints at %r) did not return its data (max diff %.3g)"
+                          % ("latest" if name == "named_latest" else "time %d" % t_named[0], t_named, t_write, float(np.abs(G - want_).max())), witness=wit)
+    G, cover = simrun.assemble([r["phi_latest"] for r in w2.results], tuple(npts[:3]))
+    ev["roundtrip_fields_compared"] += 1
+    if not (cover == 1).all() or not lo.bits_equal(G, PHI):
+        return result(VIOL, cls=[base], events=ev, key="C18:roundtrip/named-family", what="Grid.loadFromFile(nameConvention='phi') did not return the stored complex potential", witness=wit)
+    for r_ in w2.results:
+        c0 = r_["consts"][0]
+        for which, cc in (("setupFromFile", r_["consts"][1]), ("setupFromFile(layout=...)", r_["consts"][2])):
+            for k, v in c0.items():
+                ev["roundtrip_fields_compared"] += 1
+                if k in ("rp",):
+                    continue                         # judged separately below (listed fix)
+                if not (cc.get(k) == v or (isinstance(v, float) and v != v and cc.get(k) != cc.get(k))):
+                    return result(VIOL, cls=[base], events=ev, key="C18:restart-constants/%s" % k,
+                                  what="%s: constant %s is %r, the run was set up with %r (constants file %r)" % (which, k, cc.get(k), v, extra), witness=wit)
     r0 = w2.results[0]
     if r0["t"] != t_write or r0["lay"] != layout or r0["lay3"] != want_layout:
         return result(VIOL, cls=[base], events=ev, key="C18:restart-metadata", what="setupFromFile returned time %r / layouts %r,%r; expected %r / %r,%r" % (r0["t"], r0["lay"], r0["lay3"], t_write, layout, want_layout), witness=wit)
